@@ -201,6 +201,13 @@ impl Register {
 
     /// Check if a register op is valid for our current register
     pub fn check_register_op(&self, op: &RegisterOp) -> Result<()> {
+        // an op made for another register must not enter this one (RegisterCrdt::apply_op would refuse it)
+        if op.address() != self.address {
+            return Err(Error::RegisterAddrMismatch {
+                dst_addr: Box::new(op.address()),
+                reg_addr: Box::new(self.address),
+            });
+        }
         if self.permissions.can_anyone_write() {
             return Ok(()); // anyone can write, so no need to check the signature
         }
